@@ -9,6 +9,7 @@ package comet
 func init() {
 	vHarnesses["H_C05_main"] = H_C05_main
 	vHarnesses["H_C05_config"] = H_C05_config
+	vHarnesses["H_C05_options"] = H_C05_options
 }
 
 type vHybridDoc struct {
@@ -18,8 +19,47 @@ type vHybridDoc struct {
 	meta map[string]interface{}
 }
 
+// options of the hybrid search that are handed through to the sub-searches; the zero value means "not set"
+type vHybridOpts struct {
+	groups       []*FilterGroup
+	threshold    float32
+	setThreshold bool
+	agg          ScoreAggregationKind
+	setAgg       bool
+	cutoff       int
+	setCutoff    bool
+	nProbes      int
+	efSearch     int
+	fusionByKind bool // WithFusionKind(kind) instead of WithFusion(NewFusion(kind, cfg))
+}
+
 func vHybridCheck(h HybridSearchIndex, q []float32, texts []string, filters []Filter, k int, fkind FusionKind, cfg *FusionConfig) {
+	vHybridCheckOpt(h, q, texts, filters, k, fkind, cfg, vHybridOpts{})
+}
+
+func vHybridCheckOpt(h HybridSearchIndex, q []float32, texts []string, filters []Filter, k int, fkind FusionKind, cfg *FusionConfig, o vHybridOpts) {
 	hs := h.NewSearch().WithK(k)
+	agg, cutoff := SumAggregation, -1
+	if len(o.groups) > 0 {
+		hs = hs.WithMetadataGroups(o.groups...)
+	}
+	if o.setThreshold {
+		hs = hs.WithThreshold(o.threshold)
+	}
+	if o.setAgg {
+		hs = hs.WithScoreAggregation(o.agg)
+		agg = o.agg
+	}
+	if o.setCutoff {
+		hs = hs.WithCutoff(o.cutoff)
+		cutoff = o.cutoff
+	}
+	if o.nProbes != 0 {
+		hs = hs.WithNProbes(o.nProbes)
+	}
+	if o.efSearch != 0 {
+		hs = hs.WithEfSearch(o.efSearch)
+	}
 	if q != nil {
 		hs = hs.WithVector(q)
 	}
@@ -29,15 +69,29 @@ func vHybridCheck(h HybridSearchIndex, q []float32, texts []string, filters []Fi
 	if len(filters) > 0 {
 		hs = hs.WithMetadata(filters...)
 	}
+	if o.fusionByKind {
+		cfg = nil // the documented default configuration of the kind
+	}
 	f, ferr := NewFusion(fkind, cfg)
 	vAssert(ferr == nil, "fusion-constructor")
-	hs = hs.WithFusion(f)
+	if o.fusionByKind {
+		hs = hs.WithFusionKind(fkind)
+	} else {
+		hs = hs.WithFusion(f)
+	}
 	res, err := hs.Execute()
 
 	// ---- expectation by composition ----
 	var cand []uint32
-	if len(filters) > 0 {
-		mr, merr := h.MetadataIndex().NewSearch().WithFilters(filters...).Execute()
+	if len(filters) > 0 || len(o.groups) > 0 {
+		ms := h.MetadataIndex().NewSearch()
+		if len(filters) > 0 {
+			ms = ms.WithFilters(filters...)
+		}
+		if len(o.groups) > 0 {
+			ms = ms.WithFilterGroups(o.groups...)
+		}
+		mr, merr := ms.Execute()
 		vAssert((err != nil) == (merr != nil) || err != nil, "metadata-error-propagates")
 		if merr != nil {
 			return
@@ -53,7 +107,18 @@ func vHybridCheck(h HybridSearchIndex, q []float32, texts []string, filters []Fi
 	}
 	var vres, tres map[uint32]float64
 	if q != nil {
-		rs, verr := h.VectorIndex().NewSearch().WithQuery(vCopy(q)).WithK(k).WithScoreAggregation(SumAggregation).WithCutoff(-1).WithNProbes(1).WithDocumentIDs(cand...).Execute()
+		np := 1
+		if o.nProbes > 0 {
+			np = o.nProbes
+		}
+		vs := h.VectorIndex().NewSearch().WithQuery(vCopy(q)).WithK(k).WithScoreAggregation(agg).WithCutoff(cutoff).WithNProbes(np).WithDocumentIDs(cand...)
+		if o.efSearch > 0 {
+			vs = vs.WithEfSearch(o.efSearch)
+		}
+		if o.setThreshold && o.threshold > 0 {
+			vs = vs.WithThreshold(o.threshold) // a threshold that is not positive means "no threshold"
+		}
+		rs, verr := vs.Execute()
 		if verr != nil {
 			vAssert(err != nil, "vector-error-propagates")
 			return
@@ -64,7 +129,7 @@ func vHybridCheck(h HybridSearchIndex, q []float32, texts []string, filters []Fi
 		}
 	}
 	if len(texts) > 0 {
-		rs, terr := h.TextIndex().NewSearch().WithQuery(texts...).WithK(k).WithScoreAggregation(SumAggregation).WithCutoff(-1).WithDocumentIDs(cand...).Execute()
+		rs, terr := h.TextIndex().NewSearch().WithQuery(texts...).WithK(k).WithScoreAggregation(agg).WithCutoff(cutoff).WithDocumentIDs(cand...).Execute()
 		if terr != nil {
 			vAssert(err != nil, "text-error-propagates")
 			return
@@ -228,4 +293,73 @@ func H_C05_config() {
 		vAssert(len(res) == 1 && res[0].ID == 5 && res[0].Score == 1, "metadata-only-score-1")
 	}
 	vCover("configured")
+}
+
+// the options a hybrid search hands through: filter groups (alone and next to a filter list), fusion by kind with
+// the default configuration, a vector threshold, several text queries under each aggregation rule, an autocut
+// cutoff — one option family at a time, same oracle by composition
+func H_C05_options() {
+	flat, _ := NewFlatIndex(1, L2Squared)
+	h := NewHybridSearchIndex(flat, NewBM25SearchIndex(), NewRoaringMetadataIndex())
+	docs := []vHybridDoc{
+		{5, vVec("v0", 1), "fox fox dog", map[string]interface{}{"c": "x", "n": vI64("n0")}},
+		{3, vVec("v1", 1), "dog cat", map[string]interface{}{"c": "x", "n": vI64("n1")}},
+		{9, vVec("v2", 1), "the dog", map[string]interface{}{"c": "y"}},
+	}
+	for _, d := range docs {
+		vAssert(h.AddWithID(d.id, d.vec, d.text, d.meta) == nil, "add-ok")
+	}
+	q := vVec("q", 1)
+	texts := []string{"dog"}
+	var filters []Filter
+	k := vInt("k")
+	vAssume(k >= 1)
+	fkind := WeightedSumFusion
+	cfg := &FusionConfig{VectorWeight: 0.25, TextWeight: 2, K: 60}
+	var o vHybridOpts
+	fam := vChoose("family", 6)
+	switch fam {
+	case 0: // filter groups alone: (c = x and n >= c) or (c = y)
+		o.groups = []*FilterGroup{{Filters: []Filter{Eq("c", "x"), Gte("n", vI64("c"))}, Logic: AND}, {Filters: []Filter{Eq("c", "y")}, Logic: AND}}
+		if vChoose("parts", 2) == 1 {
+			q = nil // text + groups only
+		}
+		vTag("groups")
+	case 1: // groups next to a filter list: whatever the metadata index answers for both is the candidate set
+		o.groups = []*FilterGroup{{Filters: []Filter{Lt("n", vI64("c"))}, Logic: AND}}
+		filters = []Filter{Eq("c", "x")}
+		texts = nil
+		vTag("groups+filters")
+	case 2: // fusion selected by kind: the kind's default configuration
+		fkind = vFusionKinds[vChoose("fusion", 4)]
+		o.fusionByKind = true
+		vTag("fusion-by-kind")
+	case 3: // vector threshold (any float32 that is not NaN; <= 0 means none)
+		o.setThreshold = true
+		o.threshold = vF32("th")
+		vAssume(o.threshold == o.threshold)
+		if vChoose("parts", 2) == 1 {
+			texts = nil
+		}
+		vTag("threshold")
+	case 4: // two text queries under each aggregation rule
+		texts = []string{"dog", "cat fox"}
+		o.setAgg = true
+		o.agg = []ScoreAggregationKind{SumAggregation, MaxAggregation, MeanAggregation}[vChoose("agg", 3)]
+		if vChoose("parts", 2) == 1 {
+			q = nil
+		}
+		vTag("aggregation")
+	case 5: // autocut cutoff handed to both sub-searches
+		o.setCutoff = true
+		o.cutoff = []int{-1, 0, 1, 2}[vChoose("cutoff", 4)]
+		if vChoose("parts", 2) == 1 {
+			texts = nil
+		} else {
+			q = nil
+		}
+		vTag("cutoff")
+	}
+	vHybridCheckOpt(h, q, texts, filters, k, fkind, cfg, o)
+	vCover("ran")
 }
